@@ -395,6 +395,14 @@ def r_balance(P, chk, units=None):
                         continue
                     n_void += 1
                     ok = any(g.cfg.postdominates(e["i"], c["i"]) for e in enders if e is not c)
+                    if not ok and g.static:
+                        # the opening was extracted into a static helper: every call of it is followed by the terminator
+                        sites = [(h, c2) for h in u.funcs.values() if h is not g for c2 in h.calls(g.name)]
+                        def closes_after(h, c2):
+                            hp = h.cfg.positions()
+                            he = [c3 for c3 in h.calls() if "/>" in (_literal(c3) or "") and c3.get("i") in hp]
+                            return c2.get("i") in hp and any(h.cfg.postdominates(e2["i"], c2["i"]) for e2 in he)
+                        ok = bool(sites) and all(closes_after(h, c2) for h, c2 in sites)
                     chk.obligation(rid, "%s %s: <%s> is never closed by name in %s, so it is terminated by `/>` on every path" % (
                         g.where(c), g.name, nm, unit), ok)
                     if not ok:
